@@ -32,14 +32,17 @@ structure ShOk (st : THm) : Prop where
     (st.lpc = .iter ∨ st.lpc = .notifyFinal ∨ st.lpc = .loopingFinal ∨ st.lpc = .finished) ∧ st.remaining = []
   loadedIff : st.loaded = true ↔ (st.lpc = .notifyFinal ∨ st.lpc = .loopingFinal ∨ st.lpc = .finished)
   full : st.loaded = true → st.failed = false → st.strs = st.view
+  called : st.lpc = .called → st.hoist = true
+  cfg : st.hoist = false ∨ st.eager = false
 
 structure SafeM (st : THm) : Prop where
   sh : ShOk st
   co : ∀ i, ConsOk st.view st.inserted st.loaded st.failed (st.cons i)
 
-theorem safeM_init (old pre : List Text) : SafeM (THm.init old pre) := by
+theorem safeM_init (old pre : List Text) (eager hoist : Bool := false)
+    (hcfg : hoist = false ∨ eager = false := by decide) : SafeM (THm.init old pre eager hoist) := by
   refine ⟨?_, fun i => ?_⟩
-  · constructor <;> simp [THm.init, THm.view]
+  · constructor <;> simp [THm.init, THm.view, hcfg]
   · constructor <;> simp [THm.init, ConsM.active]
 
 /-- the event flag plays no role for safety -/
@@ -71,7 +74,7 @@ theorem consOk_app {V : List Text} {ins : Nat} {l f : Bool} {c : ConsM} (h : Con
 
 /-- a step that only touches the loader's own fields and event flags -/
 theorem safeM_setEv (st : THm) (h : SafeM st) (e : Nat) : SafeM (st.setEv e) := by
-  refine ⟨⟨h.sh.pre, h.sh.iter, h.sh.failPc, h.sh.loadedIff, h.sh.full⟩, fun i => ?_⟩
+  refine ⟨⟨h.sh.pre, h.sh.iter, h.sh.failPc, h.sh.loadedIff, h.sh.full, h.sh.called, h.sh.cfg⟩, fun i => ?_⟩
   show ConsOk st.view st.inserted st.loaded st.failed (if i = e then { st.cons e with ev := true } else st.cons i)
   split
   · exact consOk_ev (h.co e) true
@@ -79,30 +82,32 @@ theorem safeM_setEv (st : THm) (h : SafeM st) (e : Nat) : SafeM (st.setEv e) := 
 
 theorem safeM_loopStart (st : THm) (h : SafeM st) (inLoop after : NPc)
     (hsh : ∀ st' : THm, st'.storage = st.storage → st'.strs = st.strs → st'.loaded = st.loaded →
-      st'.remaining = st.remaining → st'.failed = st.failed → (st'.lpc = inLoop ∨ st'.lpc = after) → ShOk st') :
+      st'.remaining = st.remaining → st'.failed = st.failed → st'.hoist = st.hoist → st'.eager = st.eager →
+      (st'.lpc = inLoop ∨ st'.lpc = after) → ShOk st') :
     SafeM (loopStartM st inLoop after) := by
   unfold loopStartM
   split
-  · exact ⟨hsh _ rfl rfl rfl rfl rfl (Or.inr rfl), h.co⟩
+  · exact ⟨hsh _ rfl rfl rfl rfl rfl rfl rfl (Or.inr rfl), h.co⟩
   · rename_i e r _
     have := safeM_setEv st h e
-    exact ⟨hsh _ rfl rfl rfl rfl rfl (Or.inl rfl), this.co⟩
+    exact ⟨hsh _ rfl rfl rfl rfl rfl rfl rfl (Or.inl rfl), this.co⟩
 
 theorem safeM_loopNext (st : THm) (h : SafeM st) (after : NPc)
     (hsh : ∀ st' : THm, st'.storage = st.storage → st'.strs = st.strs → st'.loaded = st.loaded →
-      st'.remaining = st.remaining → st'.failed = st.failed → (st'.lpc = st.lpc ∨ st'.lpc = after) → ShOk st') :
+      st'.remaining = st.remaining → st'.failed = st.failed → st'.hoist = st.hoist → st'.eager = st.eager →
+      (st'.lpc = st.lpc ∨ st'.lpc = after) → ShOk st') :
     SafeM (loopNextM st after) := by
   unfold loopNextM
   split
-  · exact ⟨hsh _ rfl rfl rfl rfl rfl (Or.inr rfl), h.co⟩
+  · exact ⟨hsh _ rfl rfl rfl rfl rfl rfl rfl (Or.inr rfl), h.co⟩
   · rename_i e r _
     have := safeM_setEv st h e
-    exact ⟨hsh _ rfl rfl rfl rfl rfl (Or.inl rfl), this.co⟩
+    exact ⟨hsh _ rfl rfl rfl rfl rfl rfl rfl (Or.inl rfl), this.co⟩
 
 
 theorem safeM_setCons (st : THm) (h : SafeM st) (i : Nat) (c : ConsM)
     (hc : ConsOk st.view st.inserted st.loaded st.failed c) : SafeM (st.setCons i c) := by
-  refine ⟨⟨h.sh.pre, h.sh.iter, h.sh.failPc, h.sh.loadedIff, h.sh.full⟩, fun j => ?_⟩
+  refine ⟨⟨h.sh.pre, h.sh.iter, h.sh.failPc, h.sh.loadedIff, h.sh.full, h.sh.called, h.sh.cfg⟩, fun j => ?_⟩
   show ConsOk st.view st.inserted st.loaded st.failed (if j = i then c else st.cons j)
   split
   · exact hc
@@ -110,7 +115,7 @@ theorem safeM_setCons (st : THm) (h : SafeM st) (i : Nat) (c : ConsM)
 
 /-- changing only the list of registered events -/
 theorem safeM_events (st : THm) (h : SafeM st) (ev : List Nat) : SafeM { st with events := ev } :=
-  ⟨⟨h.sh.pre, h.sh.iter, h.sh.failPc, h.sh.loadedIff, h.sh.full⟩, h.co⟩
+  ⟨⟨h.sh.pre, h.sh.iter, h.sh.failPc, h.sh.loadedIff, h.sh.full, h.sh.called, h.sh.cfg⟩, h.co⟩
 
 theorem safeM_cread (st : THm) (h : SafeM st) (i : Nat) : SafeM (stepM st (.cread i)) := by
   simp only [stepM]
@@ -214,6 +219,8 @@ theorem safeM_step (st : THm) (h : SafeM st) (a : StepM) : SafeM (stepM st a) :=
         have h3 := hsh.failPc
         have h4 := hsh.loadedIff
         have h5 := hsh.full
+        have h6 := hsh.called
+        have h7 := hsh.cfg
         by_cases hn : st.lpc = .notStarted
         · constructor <;> simp_all [THm.view]
         · constructor <;> simp_all [THm.view]
@@ -222,6 +229,17 @@ theorem safeM_step (st : THm) (h : SafeM st) (a : StepM) : SafeM (stepM st a) :=
         · constructor <;> simp [ConsM.active]
         · exact h.co j
     · exact h
+  | lcall =>
+    simp only [stepM]
+    split
+    · rename_i hl
+      refine ⟨?_, h.co⟩
+      have h1 := hsh.pre
+      have h3 := hsh.failPc
+      have h4 := hsh.loadedIff
+      have h7 := hsh.cfg
+      constructor <;> simp_all [THm.view]
+    · exact h
   | lreset =>
     simp only [stepM]
     split
@@ -229,8 +247,21 @@ theorem safeM_step (st : THm) (h : SafeM st) (a : StepM) : SafeM (stepM st a) :=
       refine ⟨?_, h.co⟩
       have h3 := hsh.failPc
       have h4 := hsh.loadedIff
+      have h7 := hsh.cfg
       constructor <;> simp_all [THm.view]
-    · exact h
+    · split
+      · rename_i hl
+        refine ⟨?_, h.co⟩
+        have h3 := hsh.failPc
+        have h4 := hsh.loadedIff
+        have h7 := hsh.cfg
+        have hho := hsh.called hl
+        have hea : st.eager = false := by
+          rcases h7 with h7 | h7
+          · simp [hho] at h7
+          · exact h7
+        constructor <;> simp_all [THm.view]
+      · exact h
   | lappend =>
     simp only [stepM]
     split
@@ -243,6 +274,8 @@ theorem safeM_step (st : THm) (h : SafeM st) (a : StepM) : SafeM (stepM st a) :=
         have h3 := hsh.failPc
         have h4 := hsh.loadedIff
         have h5 := hsh.full
+        have h6 := hsh.called
+        have h7 := hsh.cfg
         have hnf : st.failed = false := by
           cases hf : st.failed with
           | false => rfl
@@ -258,11 +291,13 @@ theorem safeM_step (st : THm) (h : SafeM st) (a : StepM) : SafeM (stepM st a) :=
     split
     · rename_i hl
       apply safeM_loopStart st h
-      intro st' e1 e2 e3 e4 e5 hpc
+      intro st' e1 e2 e3 e4 e5 e6 e7 hpc
       have h2 := hsh.iter
       have h3 := hsh.failPc
       have h4 := hsh.loadedIff
       have h5 := hsh.full
+      have h6 := hsh.called
+      have h7 := hsh.cfg
       have h1 := hsh.pre
       rcases hpc with hpc | hpc <;> (constructor <;> simp_all [THm.view])
     · exact h
@@ -271,11 +306,13 @@ theorem safeM_step (st : THm) (h : SafeM st) (a : StepM) : SafeM (stepM st a) :=
     split
     · rename_i hl
       apply safeM_loopStart st h
-      intro st' e1 e2 e3 e4 e5 hpc
+      intro st' e1 e2 e3 e4 e5 e6 e7 hpc
       have h2 := hsh.iter
       have h3 := hsh.failPc
       have h4 := hsh.loadedIff
       have h5 := hsh.full
+      have h6 := hsh.called
+      have h7 := hsh.cfg
       have h1 := hsh.pre
       rcases hpc with hpc | hpc <;> (constructor <;> simp_all [THm.view])
     · exact h
@@ -284,21 +321,25 @@ theorem safeM_step (st : THm) (h : SafeM st) (a : StepM) : SafeM (stepM st a) :=
     split
     · rename_i hl
       apply safeM_loopNext st h
-      intro st' e1 e2 e3 e4 e5 hpc
+      intro st' e1 e2 e3 e4 e5 e6 e7 hpc
       have h2 := hsh.iter
       have h3 := hsh.failPc
       have h4 := hsh.loadedIff
       have h5 := hsh.full
+      have h6 := hsh.called
+      have h7 := hsh.cfg
       have h1 := hsh.pre
       rcases hpc with hpc | hpc <;> (constructor <;> simp_all [THm.view])
     · split
       · rename_i hl
         apply safeM_loopNext st h
-        intro st' e1 e2 e3 e4 e5 hpc
+        intro st' e1 e2 e3 e4 e5 e6 e7 hpc
         have h2 := hsh.iter
         have h3 := hsh.failPc
         have h4 := hsh.loadedIff
         have h5 := hsh.full
+        have h6 := hsh.called
+        have h7 := hsh.cfg
         have h1 := hsh.pre
         rcases hpc with hpc | hpc <;> (constructor <;> simp_all [THm.view])
       · exact h
@@ -316,6 +357,8 @@ theorem safeM_step (st : THm) (h : SafeM st) (a : StepM) : SafeM (stepM st a) :=
         have h3 := hsh.failPc
         have h4 := hsh.loadedIff
         have h5 := hsh.full
+        have h6 := hsh.called
+        have h7 := hsh.cfg
         constructor <;> simp_all [THm.view]
       · have := h.co i
         rw [hlf] at this
@@ -326,15 +369,26 @@ theorem safeM_step (st : THm) (h : SafeM st) (a : StepM) : SafeM (stepM st a) :=
     split
     · rename_i hl
       refine ⟨?_, fun i => consOk_failed (h.co i)⟩
+      have h1 := hsh.pre
       have h4 := hsh.loadedIff
-      constructor <;> simp_all [THm.view]
+      have h7 := hsh.cfg
+      cases hh : st.hoist <;> (constructor <;> simp_all [THm.view])
     · split
       · rename_i hl
         refine ⟨?_, fun i => consOk_failed (h.co i)⟩
-        have h1 := hsh.pre
         have h4 := hsh.loadedIff
+        have h7 := hsh.cfg
+        have h6 := hsh.called
         constructor <;> simp_all [THm.view]
-      · exact h
+      · split
+        · rename_i hl
+          refine ⟨?_, fun i => consOk_failed (h.co i)⟩
+          have h1 := hsh.pre
+          have h4 := hsh.loadedIff
+          have h6 := hsh.called
+          have h7 := hsh.cfg
+          constructor <;> simp_all [THm.view]
+        · exact h
   | app s =>
     simp only [stepM]
     refine ⟨?_, fun i => ?_⟩
@@ -343,6 +397,8 @@ theorem safeM_step (st : THm) (h : SafeM st) (a : StepM) : SafeM (stepM st a) :=
       have h3 := hsh.failPc
       have h4 := hsh.loadedIff
       have h5 := hsh.full
+      have h6 := hsh.called
+      have h7 := hsh.cfg
       constructor <;> simp_all [THm.view]
     · have := consOk_app (h.co i) s
       simpa [THm.view] using this
@@ -361,9 +417,13 @@ theorem safeM_run (st : THm) (h : SafeM st) (sched : List StepM) : SafeM (runM s
     (1) a call in progress has yielded a prefix of the history as of its own call (`hist0`);
     (2) a call that ran to its end (inner history did not raise) has yielded exactly `hist0`, newest
         first, followed by the entries appended between its call and its final locked read, each once;
-    (3) once loading is done the cache holds the whole history, every entry once, in order. -/
-theorem multi_fixed_exactly_once (old pre : List Text) (sched : List StepM) (i : Nat) :
-    let st := runM (THm.init old pre) sched
+    (3) once loading is done the cache holds the whole history, every entry once, in order.
+    For BOTH kinds of inner history (`eager`: reads its storage when called, FileHistory; lazy: when
+    its first item is requested) with the code as it is (`hoist = false`: call, list reset and first
+    item in one locked block), and for a lazy one also with the call in front of the lock. -/
+theorem multi_fixed_exactly_once (old pre : List Text) (sched : List StepM) (i : Nat)
+    (eager hoist : Bool := false) (hcfg : hoist = false ∨ eager = false := by decide) :
+    let st := runM (THm.init old pre eager hoist) sched
     let c := st.cons i
     (c.active → c.out <+: c.hist0 ∧
       st.view = st.view.take (st.inserted - c.seen) ++ c.hist0) ∧
@@ -372,7 +432,7 @@ theorem multi_fixed_exactly_once (old pre : List Text) (sched : List StepM) (i :
       ∃ later, st.view = later ++ (c.front ++ c.hist0)) ∧
     (st.loaded = true → st.failed = false → st.getStrings = st.storage) := by
   intro st c
-  have h : SafeM st := safeM_run _ (safeM_init old pre) sched
+  have h : SafeM st := safeM_run _ (safeM_init old pre eager hoist hcfg) sched
   have hc := h.co i
   refine ⟨fun ha => ⟨?_, ?_⟩, fun hd hcm hf => ⟨?_, ?_, ?_⟩, fun hl hf => ?_⟩
   · rw [hc.cons ha]; exact List.take_prefix _ _
@@ -391,5 +451,13 @@ example :
     (st.cons 0).out = ["o2".toList, "o1".toList, "N".toList] ∧ (st.cons 0).complete = true ∧
     (st.cons 1).cpc = .done ∧ (st.cons 1).complete = false ∧
     (st.cons 2).out = ["N".toList, "o2".toList, "o1".toList] ∧ st.events = [] := by decide
+
+-- the call in front of the lock, an eager inner history, two calls: the entry appended in the window is lost
+example :
+    let st := runM (THm.init ["o1".toList] [] true true)
+      [.cstart 0, .cstart 1, .lcall, .app "NEW".toList, .lreset, .lappend, .lnotify, .lset, .lset, .ldone,
+       .lfinal, .lset, .lset, .cwait 0, .cread 0, .cyield 0, .cwait 1, .cread 1, .cyield 1]
+    (st.cons 0).out = ["o1".toList] ∧ (st.cons 1).out = ["o1".toList] ∧ st.getStrings = ["o1".toList] ∧
+    st.storage = ["o1".toList, "NEW".toList] := by decide
 
 end Ptk.C13
